@@ -17,6 +17,7 @@ import (
 	"sort"
 	"strings"
 	"sync"
+	"sync/atomic"
 	"testing"
 	"testing/synctest"
 	"time"
@@ -154,7 +155,10 @@ func c15Run(t *testing.T, c c15Case) c15Outcome {
 		}
 		const base = 20 * time.Millisecond
 		const stepD = 3*time.Millisecond + 7*time.Microsecond
+		var active int32
 		stub := func(ctx context.Context, p traceroute.TracerouteParams, port int) (*result.TracerouteRun, error) {
+			atomic.AddInt32(&active, 1)
+			defer atomic.AddInt32(&active, -1)
 			isE2e := p.MinTTL == p.MaxTTL
 			mu.Lock()
 			var id int
@@ -231,8 +235,17 @@ func c15Run(t *testing.T, c c15Case) c15Outcome {
 			defer tm.Stop()
 		}
 		res, err := tr.RunTraceroute(ctx, params)
+		stillRunning := atomic.LoadInt32(&active)
 
 		out.IsOK = map[int]bool{}
+		if stillRunning > 0 {
+			time.Sleep(5 * time.Second) // (virtual) let the stragglers finish so that the bubble can end
+			// C10's clause for the request level: nothing the call started outlives it (the runs hold
+			// capture and send handles)
+			defer func() {
+				out.Bad = fmt.Sprintf("RunTraceroute returned (error: %v) while %d run(s) / probe(s) it had started were still executing", err, stillRunning)
+			}()
+		}
 		if err != nil {
 			if res != nil {
 				out.Bad = "an error was returned together with a result"
@@ -309,6 +322,14 @@ func c15Run(t *testing.T, c c15Case) c15Outcome {
 			out.Bad = "request echo fields wrong"
 		}
 		out.Res = "ok " + c15List(runs) + " " + c15List(rtts) + " " + pub
+		// a result stays what it was when it was returned: the caller of an EARLIER request still holds
+		// its result while this request ran (a server answering, an agent batching)
+		if h := c15Held; h.res != nil {
+			if now := c15Snapshot(h.res); now != h.snap {
+				out.Bad = fmt.Sprintf("the result returned for an earlier request changed while a later request ran: was %q, is now %q (runs / samples are no longer the ones that request collected)", h.snap, now)
+			}
+		}
+		c15Held = c15HeldResult{res: res, snap: c15Snapshot(res)}
 	}
 	if c.Free {
 		body(t)
@@ -316,6 +337,25 @@ func c15Run(t *testing.T, c c15Case) c15Outcome {
 		synctest.Test(t, body)
 	}
 	return out
+}
+
+type c15HeldResult struct {
+	res  *result.Results
+	snap string
+}
+
+// c15Held is the most recent successful result, kept across cases on purpose.
+var c15Held c15HeldResult
+
+func c15Snapshot(res *result.Results) string {
+	var runs, rtts []string
+	for _, r := range res.Traceroute.Runs {
+		runs = append(runs, fmt.Sprintf("%d/%s/%d", r.Source.Port, r.RunID, len(r.Hops)))
+	}
+	for _, v := range res.E2eProbe.RTTs {
+		rtts = append(rtts, fmt.Sprint(v))
+	}
+	return fmt.Sprintf("runs[%s] rtts[%s] sent=%d", strings.Join(runs, ","), strings.Join(rtts, ","), res.E2eProbe.PacketsSent)
 }
 
 func c15List(xs []string) string {
